@@ -26,14 +26,14 @@ theorem cut_lsb0_mirror (l : Bits) (bits : Int) (start stop : Option Int) (count
     cutOp .lsb0 l bits start stop count = (cutOp .msb0 l.reverse bits start stop count).map (List.map List.reverse) := by
   exact cut_mirror l bits start stop count
 
-/-! ### replace (uses findall: same chunk region as `findall_lsb0_mirror_partial`) -/
+/-! ### replace (written with findall and getslice) -/
 
-/- Full statement: without `hlen`.  It fails on the unchanged tree beyond one chunk (finding `lsb0-findall-chunks`). -/
-theorem replace_lsb0_mirror_partial (l old new : Bits) (start stop : Option Int) (count : Option Int) (ba : Bool)
-    (hlen : l.length ≤ 8192) :
+/-- `replace` for every data length, window, count and alignment flag: the same number of replacements, the
+    mirrored result. -/
+theorem replace_lsb0_mirror (l old new : Bits) (start stop : Option Int) (count : Option Int) (ba : Bool) :
     replaceOp .lsb0 l old new start stop count ba
       = (replaceOp .msb0 l.reverse old.reverse new.reverse start stop count ba).map fun r => (r.1, r.2.reverse) := by
-  exact replaceOp_mirror l old new start stop count ba hlen
+  exact replaceOp_mirror l old new start stop count ba
 
 /-! ### insert / overwrite / append / prepend / reverse -/
 
